@@ -6,6 +6,8 @@
 import PyGqlModel.Props.C07_args
 import PyGqlModel.Props.C07_rejects
 import PyGqlModel.Props.C07_equiv
+import PyGqlModel.Props.C07_bridge
+import PyGqlModel.Props.C07_fuel
 
 namespace PyGql.Props.C07.Examples
 open PyGql PyGql.Coerce
@@ -44,7 +46,7 @@ private theorem get_enum {n : String} {vs : List (String × PV)} (h : reg.get? n
 
 /-- the registry is well-formed -/
 theorem regOK : RegOK reg := by
-  refine ⟨?_, ?_, ?_⟩
+  refine ⟨?_, ?_, ?_, ?_⟩
   · intro n fs h f hf
     cases get_input h
     simp [recFields] at hf
@@ -59,6 +61,9 @@ theorem regOK : RegOK reg := by
     cases get_enum h
     simp at hp
     rcases hp with rfl | rfl <;> rfl
+  · intro n fs h
+    cases get_input h
+    decide
 
 def reg2 : Reg := { types := [("Int", .int), ("Float", .float)] }
 
@@ -131,6 +136,56 @@ example : coerceValue reg2 1 (.named "Float") (.float "1.5" none .finite) = .ok 
 example : coerceValue reg2 1 (.named "Int") (.float "inf" none .inf) = .error .internal := by rfl
 /-- a collected CoercionError does not hide a later escaping exception (`_coerce_list_value` goes on) -/
 example : coerceValue reg2 2 (.list (.named "Int")) (.list [.str "x" none none, .float "inf" none .inf]) = .error .internal := by rfl
+
+/-! #### the two side conditions are needed, and what the code does without them -/
+
+/-- python names that collide: both fields write the same key — the later value wins at the earlier position, and no
+    dict can hold both fields (this is why `RegOK.pyNamesDistinct` is a hypothesis; the model follows the collision). -/
+def regClash : Reg :=
+  { types := [("Int", .int),
+              ("C", .input [ { name := "a", pyName := "k", type := .named "Int", default := none },
+                             { name := "b", pyName := "k", type := .named "Int", default := none } ])] }
+example : coerceValue regClash 3 (.named "C") (.obj [("a", .int 1), ("b", .int 2)]) = .ok (.dict [("k", .int 2)]) := by rfl
+example : dictOfAssignments [("x", .int 1), ("y", .int 2), ("x", .int 3)] = [("x", .int 3), ("y", .int 2)] := by rfl
+
+/-- an enum whose internal value is `None` (the suite has one: `EnumValue("NULL", None)`) puts `None` at a non-null
+    position — accepted by the code, not conforming: `RegOK.enumNotNone` cannot be dropped from `variable_sound`. -/
+def regNoneEnum : Reg := { types := [("E", .enum [("NULL", .none)])] }
+example : coerceValue regNoneEnum 2 (.nonNull (.named "E")) (.str "NULL" none none) = .ok .none := by rfl
+example : ¬ Conforms regNoneEnum (.nonNull (.named "E")) .none := by
+  intro h
+  cases h with
+  | null h0 => simp [Ty.isNonNull] at h0
+  | nonNull hn _ => simp [PV.isNone] at hn
+
+/-- argument definitions satisfying `ArgsOK` -/
+example : ArgsOK reg [ { name := "x", pyName := "x_py", type := .nonNull (.named "Int"), default := some (.int 3) },
+                       { name := "r", pyName := "r", type := .named "Rec", default := none } ] :=
+  ⟨by intro d hd; simp at hd; rcases hd with rfl | rfl <;> rfl,
+   by
+    intro d hd v hv
+    simp at hd
+    rcases hd with rfl | rfl <;> simp at hv
+    subst hv
+    exact .nonNull rfl (.int rfl (by decide)),
+   by decide⟩
+
+/-- the validator's condition is inhabited: `$v: Int = 1` may be used at `x: Int!` (A3's situation), `$v: [Int]` may not be used at `[Int!]` -/
+example : allowedUsage (.named "Int") true (.nonNull (.named "Int")) false = true := by rfl
+example : allowedUsage (.list (.named "Int")) false (.list (.nonNull (.named "Int"))) false = false := by rfl
+example : VarsAllowed reg [{ name := "v", type := .named "Int", default := some (.int 1) }] (.nonNull (.named "Int")) false (.var "v") :=
+  .var (fun d hd hn => by simp at hd; subst hd; rfl)
+
+/-- the fuel bound on a concrete recursive value, and "out of fuel" below it -/
+example : fuelFor reg (.named "Rec") 3 = 1 + (3 + 1) * 3 := by rfl
+example : coerceValue reg 1 (.named "Rec") (.obj [("next", .obj [])]) = .error .fuel := by rfl
+
+/-- the trace of `query($o: Int = 1) { a: f(x: $o) b: f }` with `{"o": null}`, `f(x: Int!)` / `f(x: Int = 7)`:
+    the first selection yields a field error and NO call, its sibling still runs -/
+example : executeOp reg 5 [{ name := "o", type := .named "Int", default := some (.int 1) }] [("o", .null)]
+    [ { key := "a", defs := [{ name := "x", pyName := "x", type := .nonNull (.named "Int"), default := none }], args := [("x", .var "o")] },
+      { key := "b", defs := [{ name := "x", pyName := "x_py", type := .named "Int", default := some (.int 7) }], args := [] } ]
+    = [.fieldError "a", .call "b" [("x_py", .int 7)]] := by rfl
 
 /-- why A1 was a defect: the strict comparison that today's source uses refuses both boundaries -/
 example : ¬ (∀ n : Int, (decide (Generated.Scalars.MIN_INT < n) && decide (n < Generated.Scalars.MAX_INT)) = true ↔ InRange32 n) := by
